@@ -891,3 +891,72 @@ def lambda_bodies(n):
     for x in walk(n):
         if x.get('kind') == 'LambdaExpr':
             yield x
+
+
+# --------------------------------------------------------------------------
+# normal form: like canon(), but sums and products are flattened and sorted
+# after an optional leaf renaming, so that `y*w + x`, `x + w*y` and the same
+# expression under a variable renaming compare equal.
+
+def nf(n, leaf=None):
+    n = strip(n)
+    if n is None:
+        return '?'
+    v = int_value(n)
+    if v is not None and n.get('kind') != 'DeclRefExpr':
+        return str(v)
+    k = n.get('kind')
+    if k in ('BinaryOperator', 'CompoundAssignOperator'):
+        op = n.get('opcode')
+        if op in ('+', '*', '&', '|', '^', '&&', '||'):
+            terms = []
+
+            def flat(x):
+                x = strip(x)
+                if x.get('kind') == 'BinaryOperator' and x.get('opcode') == op and int_value(x) is None:
+                    flat(x['inner'][0])
+                    flat(x['inner'][1])
+                else:
+                    terms.append(nf(x, leaf))
+            flat(n)
+            if op in ('&&', '||'):
+                return '(' + (' %s ' % op).join(terms) + ')'
+            return '(' + (' %s ' % op).join(sorted(terms)) + ')'
+        a, b = nf(n['inner'][0], leaf), nf(n['inner'][1], leaf)
+        if op in ('==', '!=') and b < a:
+            a, b = b, a
+        if op in ('>', '>='):
+            a, b, op = b, a, {'>': '<', '>=': '<='}[op]
+        return '(%s %s %s)' % (a, op, b)
+    if k == 'UnaryOperator':
+        a = nf(n['inner'][0], leaf)
+        op = n.get('opcode')
+        if op == '*' and leaf:
+            r = leaf('*' + a)
+            if r is not None:
+                return r
+        return ('(%s%s)' % (a, op)) if n.get('isPostfix') else ('%s%s' % (op, a))
+    if k in ('CStyleCastExpr', 'CXXStaticCastExpr', 'CXXFunctionalCastExpr', 'CXXReinterpretCastExpr', 'ImplicitCastExpr', 'CXXConstCastExpr'):
+        # integral casts are kept out of the normal form (signedness of comparisons is checked separately)
+        return nf(n['inner'][0], leaf) if n.get('inner') else '?'
+    if k == 'ConditionalOperator':
+        c, a, b = n['inner'][:3]
+        return '(%s ? %s : %s)' % (nf(c, leaf), nf(a, leaf), nf(b, leaf))
+    if k == 'CXXMemberCallExpr':
+        m = strip(n['inner'][0])
+        obj = nf(m['inner'][0], leaf) if m.get('inner') else 'this'
+        nm = m.get('name')
+        s = '%s.%s(%s)' % (obj, nm, ', '.join(nf(a, leaf) for a in n['inner'][1:] if a.get('kind') != 'CXXDefaultArgExpr'))
+        if leaf:
+            r = leaf(s)
+            if r is not None:
+                return r
+        return s
+    if k == 'ArraySubscriptExpr':
+        return '%s[%s]' % (nf(n['inner'][0], leaf), nf(n['inner'][1], leaf))
+    s = canon(n)
+    if leaf:
+        r = leaf(s)
+        if r is not None:
+            return r
+    return s
